@@ -97,6 +97,15 @@ fn gen_stepwise(ch: &mut Ch, planners: &[PlannerTag], tier: Tier, big_radius: bo
         }
     }
     c.ops = ops;
+    // one run in ten has a goal sampler that fails once, or from its k-th call on; half of those
+    // sample the goal only (bias 1), where nothing else may be sampled instead
+    if ch.prob(0.1) {
+        c.goal_fail_at = Some(ch.below(20));
+        c.fault_persists = ch.prob(0.5);
+        if ch.prob(0.5) {
+            c.goal_bias = 1.0;
+        }
+    }
     // make success rarer so that the tree keeps growing
     if ch.prob(0.6) {
         c.problems[0].goal.radius *= 0.2;
@@ -560,6 +569,7 @@ impl C16GoalBias {
             space2: None,
             fault_persists: false,
             raw_space: false,
+            prm_timeout: None,
         };
         let t = run_case_dyn(&pc).ok()?;
         let st = t.steps.last()?;
